@@ -534,6 +534,14 @@ func (l *lockstep) applyEvents() {
 		case "poke":
 			l.pokeBoth(ev.A, ev.V)
 			l.res.Fault("poke")
+		case "dma":
+			// an OAM DMA transfer started by the scheduler (real machine only: the reference CPU does
+			// not model OAM contents during a transfer, so only checks that ignore data use this)
+			l.m.Write(0xff46, ev.V)
+			l.res.Fault("dma_start")
+			if l.k > 0 {
+				l.res.Probe("dma_started_mid_instruction")
+			}
 		}
 	}
 }
